@@ -37,7 +37,7 @@ PROPS = {
             'that Observer::clone clones the sentinel (derive(Clone)): trusted',
         ]),
     'C09': dict(
-        units=['handlers', 'observer'], level='proof',
+        units=['handlers', 'observer', 'nodepred'], level='proof',
         replays=['c09_spurious_changed.rs', 'c09_double_unsubscribe.rs', 'c09_state_unsubscribe_before_first_stabilise.rs'],
         uncovered=[
             'that a due callback is actually invoked (liveness); the contracts pin the argument of every call that is made, and the handler state after it',
